@@ -1,5 +1,5 @@
 #!/usr/bin/env python3
-"""try_patch.py <patch.diff> <Cxx> [<Cxx> ...] [--tier quick] [--tests]
+"""try_patch.py <patch.diff> <Cxx> [<Cxx> ...] [--tier=quick] [--reverse]
 Copies /repo (without _build) to a scratch dir outside /repo and /verif, applies the patch, runs the given checks
 against it with VERIF_REPO, prints exit codes, removes the scratch copy."""
 import os, shutil, subprocess, sys, tempfile
@@ -15,7 +15,8 @@ def main():
     try:
         dst = os.path.join(scratch, "repo")
         subprocess.check_call(["rsync", "-a", "--exclude", "_build", "--exclude", ".git", "/repo/", dst + "/"])
-        r = subprocess.run(["patch", "-p1", "-d", dst, "-i", patch], capture_output=True, text=True)
+        rev = ["-R"] if "--reverse" in sys.argv else []
+        r = subprocess.run(["patch", "-p1"] + rev + ["-d", dst, "-i", patch], capture_output=True, text=True)
         if r.returncode != 0:
             print("PATCH FAILED", r.stdout, r.stderr); return 3
         env = dict(os.environ, VERIF_REPO=dst)
